@@ -23,8 +23,43 @@ def c08_cfg(tier):
     return dict(count=60, size=7, depth=3, child_depth=2, tape=8)
 
 
+def ir_gen(agents_c, out_name, specs, immutable=None, immutable_offsets=None, opt="-O1", extra_defs=()):
+    """clang-14 IR of harness/agents/<agents_c> (which #includes the real librfn unit) -> <workdir>/<out_name> via vt/ir2c.py.
+    Regenerated from the current source tree on every run; the harness #includes the result."""
+    import subprocess
+    from . import core, ir2c
+
+    def gen(root, workdir):
+        src = os.path.join(core.HARNESS, "agents", agents_c)
+        ll = os.path.join(workdir, out_name + ".ll")
+        cmd = ["clang-14", opt, "-fno-vectorize", "-fno-slp-vectorize", "-fno-unroll-loops", "-mllvm", "-inline-threshold=100000",
+               "-D__NO_CTYPE", "-I", os.path.join(root, "include"), "-I", root, "-S", "-emit-llvm", src, "-o", ll] + list(extra_defs)
+        r = subprocess.run(cmd, capture_output=True, text=True)
+        if r.returncode:
+            raise RuntimeError("clang failed: " + r.stderr[-1500:])
+        text = ir2c.translate(open(ll).read(), specs, immutable=immutable, immutable_offsets=immutable_offsets)
+        open(os.path.join(workdir, out_name), "w").write(text)
+        return []
+    gen.vt_name = "ir:" + out_name + ":" + opt
+    REG[gen.vt_name] = gen
+    return gen
+
+
+REG = {}
+
+
 def run(name, root, workdir):
     kind, *rest = name.split(":")
     if kind == "c08":
         return c08_gen(rest[0], int(rest[1]))(root, workdir)
+    if name not in REG:
+        # the generators register themselves when their property module is imported
+        import importlib
+        for mod in ("c04", "c05", "c07", "c18"):
+            try:
+                importlib.import_module("vt.props." + mod)
+            except Exception:
+                pass
+    if name in REG:
+        return REG[name](root, workdir)
     raise ValueError(name)
